@@ -51,3 +51,4 @@ theorem B_DIST (a b s : BitVec 64) : (a+b)*s = a*s + b*s := BitVec.add_mul
 theorem B_COMM (a b : BitVec 64) : a*b = b*a := BitVec.mul_comm a b
 theorem B_ASSOC (a b c : BitVec 64) : a*(b*c) = (a*b)*c := (BitVec.mul_assoc a b c).symm
 theorem L_SWAP (a b c : Int) : (a*b)*c = (a*c)*b := Int.mul_right_comm a b c
+theorem L_MULNEG (a b : Int) : (-a)*b = -(a*b) ∧ b*(-a) = -(b*a) := ⟨Int.neg_mul a b, Int.mul_neg b a⟩
